@@ -150,6 +150,22 @@ CLAIMED = {
             "quantifier 'every argument combination' is covered by structured streams (all operand lengths up to capacity+1, buffer lengths "
             "needed-3..needed+2), not by a theorem about the C code.",
             "DESIGN.md §S.2 (C08)"),
+    "C11": ("Translator (the add/dbl templates instantiated for (ep2, fp2) regenerated on every run and checked by rfl to be the same terms as "
+            "the (ep, fp) instantiation, so the formula theorems over an arbitrary field apply) + abstract-group multiplication theorems of C03 "
+            "+ correspondence on both pairing-friendly curves of the configuration against the affine law over Fp2 built from the generic tower spec",
+            "Proved in Lean (24 theorems): the generated ep2 add/dbl code (affine, homogeneous projective, Jacobian, mixed) is term-identical to "
+            "the ep code, whose formulas are proved to be the chord-and-tangent law over any field of characteristic != 2 (exceptional cases "
+            "stated); the multiplication loops shared with the prime curve return k*Q in any commutative group killed by r; an additive "
+            "endomorphism is determined on the cyclic group by its value on the generator; h*P and its multiples lie in the r-torsion when h*r "
+            "kills the twist. Tie: ~560 lines per quick run on BN-P256 and SM9-P256 (thorough: also BLS12-381): generated ep2 formulas executed "
+            "over the tower arithmetic vs implementation vs affine law; every ep2_mul_* / fix / sim / lot variant by name x every scalar class "
+            "vs [k]Q; ep2_frb(Q,i) = [p^i]Q on subgroup points; cofactor map on twist points outside the subgroup; twist parameters reported by "
+            "the library checked (qnr non-residue, G on twist, r*G = O, Hasse). PARTIAL: GLS recodings, comb methods and additivity of the "
+            "Frobenius map are compared per line, not modelled; ep3/ep4/ep8 (other field sizes) not covered.",
+            "Trusted: Lean kernel; tools/translate.py; Spec/Tower.lean + Spec/CurveX.lean as the definition of Fp2 and of the group law; the "
+            "harness chooses the twist type (D/M) under which psi(G) = [p]G because the library exposes no per-curve selector; known findings "
+            "F31 (ep2_mul_slide refuses scalars longer than the field), F32 (identity inside a simultaneous table).",
+            "DESIGN.md §S.2 (C11)"),
 }
 
 PENDING_REASON = {
